@@ -65,7 +65,8 @@ type Server struct {
 	arbs     int
 
 	// FaultFn is consulted under the server lock for every RPC (idx = -1) and every update
-	FaultFn func(rpc, idx int, u *p4.Update) Fault
+	// n: number of updates of the RPC
+	FaultFn func(rpc, idx, n int, u *p4.Update) Fault
 
 	gs   *grpc.Server
 	lis  net.Listener
@@ -363,6 +364,32 @@ func (s *Server) apply(u *p4.Update) (string, codes.Code) {
 	return "other", codes.Unimplemented
 }
 
+func firstUpdate(req *p4.WriteRequest) *p4.Update {
+	if len(req.Updates) == 0 {
+		return nil
+	}
+
+	return req.Updates[0]
+}
+
+// KindOf names the entity kind of an update: table | meter | counter | other.
+func KindOf(u *p4.Update) string {
+	if u == nil || u.Entity == nil {
+		return "other"
+	}
+
+	switch u.Entity.Entity.(type) {
+	case *p4.Entity_TableEntry:
+		return "table"
+	case *p4.Entity_MeterEntry:
+		return "meter"
+	case *p4.Entity_CounterEntry:
+		return "counter"
+	}
+
+	return "other"
+}
+
 // Write implements the RPC.
 func (s *Server) Write(ctx context.Context, req *p4.WriteRequest) (*p4.WriteResponse, error) {
 	s.mu.Lock()
@@ -375,7 +402,7 @@ func (s *Server) Write(ctx context.Context, req *p4.WriteRequest) (*p4.WriteResp
 	rpc := s.rpcs
 
 	if s.FaultFn != nil {
-		if f := s.FaultFn(rpc, -1, nil); f.Code != codes.OK && f.RPC {
+		if f := s.FaultFn(rpc, -1, len(req.Updates), firstUpdate(req)); f.Code != codes.OK && f.RPC {
 			for i, u := range req.Updates {
 				kind := "other"
 				if u != nil && u.Entity != nil {
@@ -412,7 +439,7 @@ func (s *Server) Write(ctx context.Context, req *p4.WriteRequest) (*p4.WriteResp
 		)
 
 		if s.FaultFn != nil && u != nil {
-			if f := s.FaultFn(rpc, i, u); f.Code != codes.OK && !f.RPC {
+			if f := s.FaultFn(rpc, i, len(req.Updates), u); f.Code != codes.OK && !f.RPC {
 				code, forced = f.Code, true
 				kind = "table"
 
@@ -682,7 +709,7 @@ func (s *Server) RpcCount() int {
 }
 
 // SetFault installs (or removes, with nil) the fault function.
-func (s *Server) SetFault(f func(rpc, idx int, u *p4.Update) Fault) {
+func (s *Server) SetFault(f func(rpc, idx, n int, u *p4.Update) Fault) {
 	s.mu.Lock()
 	defer s.mu.Unlock()
 
